@@ -271,6 +271,24 @@ def s52(ctx, prog, T):
                                       span=e[3])
                         continue
                 ctx.ok('S5.2', 'collapse_root_stack_to:absorb', guard, span=e[3])
+                # which sequences are absorbed: exactly those that bind tighter than the goal. An open sequence of the same kind as
+                # the goal is the one the caller continues - absorbing it too (>= instead of >) nests `a; b, c; d` as ((a; (b, c)); d)
+                cmps = [(v, taken) for v, taken in seen_br if v[0] == 'app' and v[1] in ('binop:Gt', 'binop:Lt', 'binop:Ge', 'binop:Le') and all(x_[0] == 'app' and x_[1] == 'precedence' for x_ in v[2])]
+                wrong = []
+                if not cmps:
+                    wrong.append('no precedence comparison guards the absorb step')
+                else:
+                    v, taken = cmps[-1]
+                    opname = v[1].split(':')[1]
+                    popped_first = has_subterm(v[2][0], popped)
+                    for pk in ('Tuple', 'Chain'):
+                        for gk in ('Tuple', 'Chain'):
+                            x, y = (prec[pk], prec[gk]) if popped_first else (prec[gk], prec[pk])
+                            val = {'Gt': x > y, 'Lt': x < y, 'Ge': x >= y, 'Le': x <= y}[opname]
+                            absorbed = val == is_true(taken)
+                            if absorbed != (prec[pk] > prec[gk]):
+                                wrong.append('%s under goal %s is %s' % (pk, gk, 'absorbed' if absorbed else 'kept'))
+                ctx.check(not wrong, 'S5.2', 'collapse_root_stack_to:absorb-strict', 'absorb-order', 'a sequence on the stack is absorbed exactly when it binds tighter than the separator being handled (deviations: %s)' % wrong, span=e[3])
     ctx.floor('S5.2', 'absorb_steps', n, 1)
     # sibling: collapse_all_sequences absorbs only under is_sequence()
     g = prog.fn('tree::collapse_all_sequences')
